@@ -5,6 +5,7 @@ package limit
 import (
 	"math"
 
+	"github.com/platinummonkey/go-concurrency-limits/measurements"
 	verif "github.com/platinummonkey/go-concurrency-limits/zz_verifrt"
 )
 
@@ -194,5 +195,50 @@ func VerifC07_Gradient2() {
 		verif.Assert("gradient2-recovers", after >= want*0.999999)
 	}
 	_ = longBefore
+	verif.Reach("end")
+}
+
+// VerifC07_Gradient2_ZeroRTTStaysRecoverable / VerifC07_Gradient_ZeroRTTStaysRecoverable: the
+// recovery lemmas above start from an arbitrary *valid* state (finite estimate within its bounds,
+// finite non-negative RTT statistics).  "No reachable state is stuck" therefore also needs the valid
+// states to be closed under the one kind of sample tier R cannot express: rtt == 0 (0/0 = NaN would
+// be a state no run of healthy samples leaves).  Bit-precise; followed by one healthy saturated
+// sample, after which the estimate must again be a number within the bounds.
+//
+//verif:harness property=C07 theory=bv tier=quick timeout=120 portfolio=1 solver=cvc5 feastimeout=2
+func VerifC07_Gradient2_ZeroRTTStaysRecoverable() {
+	l := NewDefaultGradient2Limit("g2", nil, nil)
+	est := verif.Float("est")
+	verif.Assume(est >= 20 && est <= 200)
+	l.estimatedLimit = est
+	value := verif.Float("long.value")
+	count := verif.Int("long.count")
+	verif.Assume(value >= 0 && value <= 1e12 && count >= 0 && count <= 10)
+	sum := value * float64(count)
+	l.longRTT = measurements.VerifExpAvg(value, sum, 600, 10, count)
+	inflight := verif.Int("inflight")
+	verif.Assume(inflight >= 0 && inflight < 1<<31)
+	l.OnSample(0, 0, inflight, false)
+	after := l.estimatedLimit
+	verif.Assert("gradient2-zero-rtt-state-recoverable", !verif.IsNaN(after) && after >= 20 && after <= 200)
+	lv := l.longRTT.Get()
+	verif.Assert("gradient2-zero-rtt-long-average-finite", verif.Finite(lv) && lv >= 0)
+	verif.Reach("end")
+}
+
+//verif:harness property=C07 theory=bv tier=quick timeout=120 portfolio=1 solver=cvc5 feastimeout=2
+func VerifC07_Gradient_ZeroRTTStaysRecoverable() {
+	l := NewGradientLimitWithRegistry("g", 20, 1, 1000, 0.2, nil, 2.0, ProbeDisabled, nil, nil)
+	est := verif.Float("est")
+	verif.Assume(est >= 1 && est <= 1000)
+	l.estimatedLimit = est
+	base := verif.Int64("baseline")
+	verif.Assume(base >= 0 && base <= 1<<40)
+	l.rttNoLoadMeasurement = measurements.VerifMinimum(float64(base))
+	inflight := verif.Int("inflight")
+	verif.Assume(inflight >= 0 && inflight < 1<<31)
+	l.OnSample(0, 0, inflight, false)
+	after := l.estimatedLimit
+	verif.Assert("gradient-zero-rtt-state-recoverable", !verif.IsNaN(after) && after >= 1 && after <= 1000)
 	verif.Reach("end")
 }
